@@ -12,7 +12,13 @@ Mistakes == {"block_size_without_number", "cert_offset_without_hash", "total_len
              "signature_not_over_hash_of_block1", "block_number_from_zero", "chain_front_to_back", "last_block_hash_not_reset",
              "kdf_key_length_follows_pck", "kdf_256_one_iteration", "kdf_timestamp_big_endian", "kdf_block_number_from_zero",
              "kdf_rights_unshifted", "section_length_counts_header", "last_chunk_padded_to_16", "extra_padding_block",
-             "fuses_length_in_bytes", "keyblob_halves_swapped", "configure_memory_swapped", "drop_last_command"}
+             "fuses_length_in_bytes", "keyblob_halves_swapped", "configure_memory_swapped", "drop_last_command",
+             "root_key_hash_over_minimal_numbers"}
+\* root_key_hash_over_minimal_numbers: the builder hashes the numbers of a root key at their minimal length (leading zero bytes
+\* of X / Y dropped) when it fills the table of root key hashes, while the record carries - and the loader hashes - the key at
+\* the fixed width.  It changes something only for a root set of more than one key in which a key has a short coordinate:
+\* the used one -> its hash is not its table entry; any one -> the hash of the table is not the provisioned root-of-trust hash.
+Short(cls) == cls \in ShortClasses
 
 RECURSIVE CmdsLen(_, _)
 CmdsLen(cs, k) == IF k = 0 THEN 0 ELSE CmdsLen(cs, k - 1) + Size(cs[k].t, cs[k].dlen)
@@ -59,10 +65,12 @@ Events(c, m) ==
                     [ev |-> "Layout", fileLen |-> fileLen, ok |-> layOk]>>
       cert     == <<[ev |-> "CertHeader", at |-> certOff, magicOk |-> TRUE, major |-> 2, minor |-> 1],
                     [ev |-> "RootKeyRecord", at |-> rkrAt, ca |-> ~c.isk, used |-> c.used, nKeys |-> c.nkeys, ctype |-> IF c.curve = 32 THEN 1 ELSE 2,
-                     curveLen |-> c.curve, tableLen |-> tableLen, keyAt |-> keyAt, end |-> rkrE, keyInTable |-> TRUE, rotkthOk |-> TRUE]>>
+                     curveLen |-> c.curve, tableLen |-> tableLen, keyAt |-> keyAt, end |-> rkrE, keyLz |-> Lz(c.rk[c.used + 1]),
+                     keyInTable |-> ~(m = "root_key_hash_over_minimal_numbers" /\ c.nkeys > 1 /\ Short(c.rk[c.used + 1])),
+                     rotkthOk |-> ~(m = "root_key_hash_over_minimal_numbers" /\ c.nkeys > 1 /\ \E i \in 1..c.nkeys : Short(c.rk[i]))]>>
                   \o (IF c.isk
                       THEN <<[ev |-> "IskCert", at |-> rkrE, sigOff |-> sigOff, constraints |-> c.constraints, iskType |-> IF c.iskCurve = 32 THEN 1 ELSE 2,
-                              iskLen |-> c.iskCurve, hasUserData |-> c.udLen > 0, userDataLen |-> c.udLen, udSha |-> c.udSha,
+                              iskLen |-> c.iskCurve, iskLz |-> Lz(c.ik), hasUserData |-> c.udLen > 0, userDataLen |-> c.udLen, udSha |-> c.udSha,
                               signedFrom |-> rkrAt, signedTo |-> rkrE + sigOff, sigLen |-> 2 * c.curve,
                               ok |-> m # "isk_signed_without_root_key_record",       \* the loader verifies over record || certificate
                               end |-> rkrE + sigOff + 2 * c.curve]>>
